@@ -93,7 +93,7 @@ class Finder(importlib.abc.MetaPathFinder, importlib.abc.Loader):
         text = open(path).read()
         for old, new in MUTATIONS.get(rel, []):
             if old not in text:
-                raise RuntimeError(f"mutation target not found in {rel}: {old!r}")
+                raise MutationError(f"mutation target not found in {rel}: {old!r}")
             text = text.replace(old, new, 1)
         LOADED[rel] = hashlib.sha1(text.encode()).hexdigest()
         tree = _Rewrite().visit(ast.parse(text, path))
@@ -103,6 +103,10 @@ class Finder(importlib.abc.MetaPathFinder, importlib.abc.Loader):
         short = module.__name__[len(PKG):].lstrip(".")
         module.__dict__.update(EXTRA_GLOBALS.get(short, {}))
         exec(compile(tree, path, "exec"), module.__dict__)
+
+
+class MutationError(BaseException):
+    pass
 
 
 _installed = False
